@@ -1,5 +1,5 @@
 """C11 — BIP143 signature message is correct for every input and sighash type."""
-from ..core import rng_for
+from ..core import rng_for, ContractViolation
 from ..ref import sighash as rsh, txref, compactsize as cs
 from .common import rand_bytes
 
@@ -47,10 +47,14 @@ def gen_cases(tier, seed):
                              "target": ["short_r", "short_s_high_bit"][i % 2]}
 
 
+    for i in range(8 if q else 100):
+        yield "sign_message", {"n_in": rng.randrange(1, 4), "n_out": rng.randrange(1, 4), "salt": rng.getrandbits(40)}
+
+
 def required(tier):
     return {"msg.decided": 5000, "msg.class.single_idx_ge_nout": 100, "msg.class.single_idx_lt_nout": 100,
             "msg.class.acp": 1000, "msg.class.none": 500, "msg.class.nonempty_scriptsig": 2000, "vector.ok": 1,
-            "history.steps": 500, "history.same_prevouts_changed_rest": 300, "e2e.signed_decided": 60, "e2e.inputs_valid": 60, "e2e.short_r": 2, "e2e.shared_txid": 20,
+            "history.steps": 500, "history.same_prevouts_changed_rest": 300, "e2e.signed_decided": 60, "signmsg.signatures_judged": 60, "signmsg.inconsistent_request_refused": 20, "e2e.inputs_valid": 60, "e2e.short_r": 2, "e2e.shared_txid": 20,
             "contract:witness_message.bip143": 60}
 
 
@@ -95,6 +99,9 @@ def run_case(kind, params, ctx):
     if kind == "history":
         _history(ctx, params, wm)
         return
+    if kind == "sign_message":
+        _sign_message(ctx, params, wm)
+        return
     rng = rng_for("C11", params["salt"])
     n_in, n_out = params["n_in"], params["n_out"]
     t = {"version": rng.choice([1, 2, 2 ** 32 - 1, rng.getrandbits(32)]),
@@ -133,6 +140,61 @@ def run_case(kind, params, ctx):
                 continue
             if got != exp:
                 ctx.violation(f"wrong/{cls}/{_which(got, exp, len(sc))}", f"n_in={n_in} n_out={n_out} idx={idx} flag={flag:#x}: field {_which(got, exp, len(sc))} differs")
+
+
+def _sign_message(ctx, params, wm):
+    """Last clause, at the signing interface: whatever `bits.sig(.., msg_preimage=True)` hands out for a BIP143 message is a
+    signature a consensus verifier accepts - it recomputes the message for the type in the signature's LAST BYTE."""
+    import bits.utils as bu
+    from ..ref import ecdsa as recdsa, der as rder, secp
+    import hashlib
+    rng = rng_for("C11sm", params["salt"])
+    n_in, n_out = params["n_in"], params["n_out"]
+    t = {"version": rng.choice([1, 2]), "locktime": rng.choice([0, 500000000 + 5]),
+         "vin": [{"txid": rand_bytes(rng, 32).hex(), "vout": rng.randrange(4), "script": "", "sequence": rng.choice([0xFFFFFFFF, 0xFFFFFFFD])} for _ in range(n_in)],
+         "vout": [{"value": rng.getrandbits(40), "script": rand_bytes(rng, rng.choice([22, 25, 34])).hex()} for _ in range(n_out)], "witness": None}
+    txins = [txref.ser_vin(i) for i in t["vin"]]
+    txouts = [txref.ser_vout(o) for o in t["vout"]]
+    d = rng.randrange(1, secp.N)
+    key = d.to_bytes(32, "big")
+    P = secp.pub(d)
+    idx = rng.randrange(n_in)
+    sc = rand_bytes(rng, 25)
+    amount = rng.getrandbits(40)
+    for f in FLAGS:
+        try:
+            msg = bytes(wm(txins, idx, amount, cs.encode(len(sc)) + sc, txouts, version=t["version"], locktime=t["locktime"], sighash_flag=f))
+        except Exception:
+            return      # reported by the message cases
+        others = [g for g in FLAGS if g != f]
+        for req in ("omitted", "same", "other"):
+            g = {"omitted": None, "same": f, "other": rng.choice(others)}[req]
+            ctx.count("signmsg.requests")
+            ctx.seen("signmsg", (params["salt"], f, req))
+            try:
+                sig = bytes(bu.sig(key, msg, sighash_flag=g, msg_preimage=True))
+            except ContractViolation as cv:
+                if cv.prop == "C11":
+                    raise
+                ctx.count("signmsg.observation_of_other_property")
+                continue
+            except Exception as e:
+                if req == "other":
+                    ctx.count("signmsg.inconsistent_request_refused")
+                else:
+                    ctx.violation(f"sign-message/raises/{req}", f"bits.sig(msg_preimage=True, sighash_flag={g}) raised {type(e).__name__}: {e}")
+                continue
+            T = sig[-1]
+            rs_ = rder.parse_strict(sig[:-1])
+            if rs_ is None:
+                ctx.count("signmsg.observation_of_other_property")
+                continue
+            z = int.from_bytes(hashlib.sha256(hashlib.sha256(rsh.bip143_preimage_fields(t, idx, sc, amount, T)).digest()).digest(), "big")
+            ctx.count("signmsg.signatures_judged")
+            if not recdsa.verify(P, z, rs_[0], rs_[1]):
+                ctx.violation(f"sign-message/invalid-for-its-type/{req}", f"message built for type {f:#x}, signing requested with sighash_flag={g}: the signature ends in {T:#x} "
+                              f"and does not verify over the BIP143 message for {T:#x} (input {idx} of {n_in}, {n_out} outputs)")
+    ctx.nontrivial()
 
 
 class _E2E:
